@@ -293,6 +293,7 @@ struct Sim
         Adaptor* a = adaptor(id);
         if (a && a->read_pending_)
         {
+          if (!arg.empty() && arg.back() == '+') arg.pop_back();
           std::string bytes = hu::unhex(arg);
           a->read_pending_ = false;
           size_t n = std::min(bytes.size(), a->read_buf_.size());
@@ -334,6 +335,8 @@ struct Sim
         auto it = app.find(id);
         if (it != app.end() && !it->second.pending.empty())
         { Recipe r = it->second.pending.front(); it->second.pending.pop_front(); if (auto c = it->second.conn.lock()) respond(id, c, r); else w.say(id, "app-conn-gone"); }
+        else if (it != app.end() && it->second.conn.lock())
+        { Recipe r; r.status = 408; r.len = 0; r.ov = 1; respond(id, it->second.conn.lock(), r); }   // the application speaks on its own
         else w.say(id, "NOTHING-PENDING");
         break;
       }
@@ -350,9 +353,23 @@ struct Sim
   std::string run(std::vector<std::string> const& events)
   {
     setup();
-    for (auto const& e : events)
+    for (size_t ei = 0; ei < events.size(); ++ei)
     {
+      auto const& e = events[ei];
       w.log.push_back("[" + e + "]");
+      // R<id>:<hex>+  : when this read completes, the bytes of the connection's next R event have arrived already
+      if (e.size() > 2 && e[0] == 'R' && e.back() == '+')
+      {
+        std::string idp = e.substr(0, e.find(':') + 1);
+        for (size_t j = ei + 1; j < events.size(); ++j)
+          if (events[j].compare(0, idp.size(), idp) == 0)
+          {
+            std::string nx = events[j].substr(idp.size());
+            if (!nx.empty() && nx.back() == '+') nx.pop_back();
+            w.available[std::stoi(e.substr(1))] = hu::unhex(nx);
+            break;
+          }
+      }
       try { event(e); }
       catch (std::exception const& ex) { w.log.push_back(std::string("THROW:") + ex.what()); break; }
       sizes();
